@@ -29,6 +29,7 @@ INSTRUMENTED = [
     "internal/network/mqtt/mqtt.go",
     "internal/network/mqtt/buffer.go",
     "internal/service/cluster/peer.go",
+    "internal/service/cluster/memberlist.go",
     "internal/event/crdt/volatile.go",
     "internal/event/crdt/map.go",
     # the durable set: yields between the statements of its methods only. Its transactions (closures handed to buntdb,
